@@ -191,6 +191,33 @@ PROPS = {
         "assumptions": ["relative-error bounds (1e-9 default, 1e-5 fast, 1% line) are properties of float64 evaluation and are sampled; coordinates are float64 so an absolute slack of 1e-8 m is allowed"],
         "partial_notes": ["equirectangular 1e-5 accuracy bound and DistanceToLine's 1% bound: sampled only"],
     },
+    "C01": {
+        "props": "TrackVerif.LT.PropsC01",
+        "streams": [("LT", 400, 8000)],
+        "clauses": ["lt.decode_own", "lt.roundtrip", "lt.reencode", "lt.cp1252", "lt.gzip_rt", "lt.no_crash", "lt.encode_fails", "lt.encode_model", "lt.decode_model", "lt.decode_mut", "lt.gen_schema"],
+        "rule": "type-directed generator over the real laptimer.DB type by reflection (0..3 laps, 0..4 fixes, intermediates, videos, vehicles with gears/tyres, every optional OBD/TPMS/acceleration block present, absent or empty); "
+                "values inside the representable domain: dates 1969-01-01..2068-12-31 incl. the century pivot, leap days and :59 boundaries, durations 0..600 min on the centisecond grid, coordinates on the 8th decimal incl. ±1e-8 and -0, "
+                "fixed-decimal floats on their grid, raw floats anywhere in ±1e12, comma-free tags, single-token ratings, text from a pool with every XML-significant character, CR, CRLF, look-alike entities, ]]>, non-ASCII and astral characters; "
+                "real Encode -> Decode -> Encode, gzip variant gunzipped and compared, windows-1252 transcoding via x/text; every 5th case decodes a MUTATED encoder output (entity insertions incl. &quote;, charset changes, truncation, digit swaps) with the real decoder and the model; "
+                "corpus: the two real LapTimer exports in /repo/test (windows-1252), the all-XML-characters text, the recorded omitempty witness",
+        "trusted_base": KERNEL + TIE + ["float64 <-> decimal text (strconv %.Nf / shortest / ParseFloat) is the exact-rational model of Common/Dec validated against Go on every run (area DEC); theorems treat the printed decimal as the value",
+                                        "compress/gzip and x/text charmap are libraries: gunzip(gzip(b)) = b and the 256-entry table (dumped by the translator) are observed, not proved",
+                                        "encoding/xml (printer, tokenizer, reflection walk) is modelled by hand from its source; the model must agree byte for byte / value for value on every generated case"],
+        "assumptions": ["invalid UTF-8 input bytes and XML constructs LapTimer never writes (CDATA, DTD, namespaces, non-ASCII names) are reported as unmodelled (SKIP), never guessed"],
+        "partial_notes": ["the whole-document theorem decode(encode db) = quant db is not proved: proved are the schema tie, the text pipeline for every string, windows-1252 table inversion and the duration codec; the other scalar codecs and the tree walk are decided per run by model = implementation plus the declarative Spec.quant"],
+    },
+    "C13": {
+        "props": "TrackVerif.LT.PropsC13",
+        "streams": [("LT", 400, 8000)],
+        "clauses": ["lt.header", "lt.wellformed", "lt.literal_ws", "lt.field_syntax", "lt.gzip", "lt.no_crash", "lt.encode_fails", "lt.encode_model", "lt.gen_schema"],
+        "rule": "as C01, half of the cases outside the round-trip domain: text with control characters, U+FFFE/U+FFFF, lone U+FFFD, sub-centisecond durations, extra float precision, nanosecond dates; the encoder's bytes are read by the strict tokenizer "
+                "(five predefined entities, numeric references, XML Char range, nesting) and must yield exactly the element structure and texts the declarative schema prescribes (non-XML characters substituted), no &#xA; / &#x9;, "
+                "every structured element must satisfy its grammar predicate (dates, durations, coordinates, positioning, relative-to-start, intermediates, fixed decimals), gzip output must gunzip to exactly the plain bytes",
+        "trusted_base": KERNEL + TIE + ["the strict tokenizer and grammar predicates are Lean code written from the XML grammar / LapTimer's documented field syntax, independent of the printer model",
+                                        "float formatting as in C01"],
+        "assumptions": ["MM in MM:SS.cc is read as 'at least two digits' (100+ minute durations print three)"],
+        "partial_notes": ["tree-level well-formedness and the numeric field grammars are decided per run on generated documents, not proved for all documents; proved for all inputs: header, schema tie, the complete text pipeline"],
+    },
     "C14": {
         "props": "TrackVerif.LT.PropsC14",
         "streams": [("LT", 500, 6000)],
